@@ -19,10 +19,61 @@ def classify(known, c, r):
     return None
 
 
+def end_to_end(rep, rng, tier):
+    """The judge looks at the compiler's result for the Go target.  What the user calls is the emitted method: the arguments it
+    hands to the driver and the SQL constant they are bound to must be the same under every configuration that contains the
+    package - version 1, or version 2 with a Kotlin target (which compiles in positional mode) before, next to or after it."""
+    import json as _json
+    from qcommon import gen_case
+    n = 120 if tier == "quick" else 2500
+    cases = [gen_case(rng) for _ in range(n)]
+    blk = lambda gen: {"schema": "schema.sql", "queries": "query.sql", "engine": "postgresql", "gen": gen}
+    go, kt = {"go": {"package": "db", "out": "db"}}, {"kotlin": {"package": "kt", "out": "kt"}}
+    variants = [("v1-go", {"version": "1", "packages": [{"path": "db", "engine": "postgresql", "schema": "schema.sql", "queries": "query.sql"}]}),
+                ("kotlin-block-then-go-block", {"version": "2", "sql": [blk(kt), blk(go)]}),
+                ("go-and-kotlin-one-block", {"version": "2", "sql": [blk(dict(go, **kt))]}),
+                ("go-block-then-kotlin-block", {"version": "2", "sql": [blk(go), blk(kt)]})]
+    jobs = [{"op": "generate", "summary": True, "nofiles": True, "files": {"sqlc.json": _json.dumps(cfg), "schema.sql": c["schema"], "query.sql": c["queries"]}}
+            for c in cases for _, cfg in variants]
+    res = run_harness(jobs)
+
+    def binding(g):
+        out = {}
+        for f, sm in g["summary"].items():
+            if f.startswith("db/") and f.endswith(".sql.go"):
+                consts = {k["name"]: k["value"] for k in sm.get("consts", [])}
+                for m in sm.get("methods", []):
+                    if m["recv"] == "Queries" and m.get("call_const"):
+                        out[m["name"]] = (consts.get(m["call_const"]), m.get("call_args"), [(p_["name"], p_["type"]) for p_ in m["params"]])
+        return out
+
+    for i, c in enumerate(cases):
+        rs = res[len(variants) * i:len(variants) * (i + 1)]
+        base = rs[0]
+        if "panic" in base or not base.get("ok"):
+            rep.count("e2e:not-generated")
+            continue
+        want = binding(base)
+        rep.count("e2e:methods", len(want))
+        for (vn, _), g in zip(variants[1:], rs[1:]):
+            replay = {"schema": c["schema"], "queries": c["queries"], "configuration": vn}
+            if "panic" in g:
+                rep.violation("sqlc panics under configuration %s: %s" % (vn, g["panic"][:100]), replay)
+            elif not g.get("ok"):
+                rep.count("e2e:%s:kotlin-refuses" % vn)
+            elif binding(g) != want:
+                got = binding(g)
+                nm = next((k for k in want if got.get(k) != want[k]), None)
+                rep.violation("under configuration %s the emitted Go method %s binds %s to %r; alone (version 1) it binds %s to %r"
+                              % (vn, nm, (got.get(nm) or [None, None])[1], (got.get(nm) or [""])[0], want[nm][1], want[nm][0]), replay)
+            else:
+                rep.count("e2e:%s:same-binding" % vn)
+
+
 def run(tier, seed):
     return run_query_property(
         PROP, "judge_c03", "From Verif Require Import Judge.J03.", KNOWN,
-        rule="random schemas (1-3 tables, reserved-word names, enum/array columns) and single annotated statements of the supported grammar (SELECT with joins/sub-selects/CTEs/UNION, INSERT/UPDATE/DELETE with RETURNING) with placeholders in every clause, positional (shuffled, repeated) or sqlc.arg/@name; every case is distinct (hash of schema+query) and non-trivial",
+        rule="random schemas (1-3 tables, reserved-word names, enum/array columns) and single annotated statements of the supported grammar (SELECT with joins/sub-selects/CTEs/UNION, INSERT/UPDATE/DELETE with RETURNING) with placeholders in every clause, positional (shuffled, repeated) or sqlc.arg/@name; the emitted Go method (driver-call arguments and SQL constant) under four configurations (version 1; version 2 with a Kotlin target before / next to / after the Go target); every case is distinct (hash of schema+query) and non-trivial",
         assumptions=["the engine's SQL parser is not modelled: the model consumes the AST the real parser produced for the same text",
                      "the placeholders a database sees are those found by the lexer Spec/Placeholders.v in the embedded SQL"],
-        tier=tier, seed=seed, what="embedded SQL placeholders and parameter list disagree", classify=classify)
+        tier=tier, seed=seed, what="embedded SQL placeholders and parameter list disagree", classify=classify, pre_finish=end_to_end)
